@@ -3,7 +3,7 @@
  * args: m n pattern colperm permidx symmode panel relax maxsuper rowblk colblk fill umode flags
  *   colperm: 0 NATURAL 1 MMD_ATA 2 MMD_AT_PLUS_A 3 COLAMD 4 MY_PERMC(permidx)
  *   umode  : 0 u=1.0  1 u symbolic in [0,1]  2 u=0.5  3 u=0.0 (documented as legal "diagonal pivoting")
- *   flags  : bit0 assume strict column diagonal dominance; bit1 pattern is structurally singular (info=0 forbidden)
+ *   flags  : bit0 assume strict column diagonal dominance; bit1 pattern is structurally singular (info=0 forbidden); bit2 (with lwork > 0) an unrelated problem is factored in the same workspace first
  *   symcols: bitmask of symbolic columns (default all); other columns hold fixed generic concrete values
  *   lwork  : 0 library allocation; > 0 caller workspace of exactly lwork bytes inside a guarded arena (C08); woff: 0 / 4 byte misalignment
  *   failat : k > 0: the k-th allocation request made during ?gstrf fails (C08 library-allocation half) */
@@ -25,6 +25,11 @@ int main(int argc, char **argv) {
   SuperMatrix A, AC, L, U; superlu_options_t opt; SuperLUStat_t stat; GlobalLU_t Glu;
   set_default_options(&opt); opt.SymmetricMode = symmode ? YES : NO; opt.DiagPivotThresh = (double)u;   /* field is double in all precisions */
   opt.ColPerm = colperm == 0 ? NATURAL : colperm == 1 ? MMD_ATA : colperm == 2 ? MMD_AT_PLUS_A : colperm == 3 ? COLAMD : MY_PERMC;
+  if ((flags & 4) && lwork > 0) {   /* history: an unrelated dense m x n problem is factored in the same caller workspace first (its bookkeeping values stay behind in the buffer) */
+    symmat_t S0; symmat_build_cols(&S0, m, n, "0xffffffffffffffffffffffffffffffffffff", "h", 0); SuperMatrix A0, AC0, L0, U0; GlobalLU_t Glu0; SuperLUStat_t st0; superlu_options_t o0; int pc0[NMAX], pr0[NMAX], et0[NMAX]; int_t inf0 = -1;
+    set_default_options(&o0); o0.ColPerm = NATURAL; F(Create_CompCol_Matrix)(&A0, m, n, S0.nnz, S0.val, S0.rowind, S0.colptr, SLU_NC, SLU_DT, SLU_GE); for (int j = 0; j < n; j++) pc0[j] = j;
+    StatInit(&st0); sp_preorder(&o0, &A0, pc0, et0, &AC0); F(gstrf)(&o0, &AC0, sp_ienv(2), sp_ienv(1), et0, work, (int_t)lwork, pc0, pr0, &L0, &U0, &Glu0, &st0, &inf0);
+    slusym_note("history_info", (long)inf0); Destroy_CompCol_Permuted(&AC0); if (inf0 >= 0 && inf0 <= n) { Destroy_SuperMatrix_Store(&L0); Destroy_SuperMatrix_Store(&U0); } Destroy_SuperMatrix_Store(&A0); StatFree(&st0); symmat_free(&S0); }
   F(Create_CompCol_Matrix)(&A, m, n, S.nnz, S.val, S.rowind, S.colptr, SLU_NC, SLU_DT, SLU_GE);
   int perm_c[NMAX], perm_r[NMAX], etree[NMAX], perm_c_in[NMAX];
   if (colperm == 4) h_kth_perm(n, permidx, perm_c); else get_perm_c(colperm, &A, perm_c);
